@@ -11,10 +11,14 @@
    cache, through errors.Is) reads it: does it wrap the sentinel
    corecrl.ErrCacheMiss or not; message texts play no role.
 
-   The rest of crl.go (FileCache.Get, Set, fileName) is outside the translator
-   today: see docs/audit/C15.md, section "GoLite". *)
+   Second part: FileCache.fileName, Set and Get (section "fileName, Set, Get"
+   below) against file_name, set and get of the model, the dependencies
+   (sha256, hex, json, x509, os.ReadFile, filepath.Join, file.WriteFile) being
+   universally quantified oracles with the hypothesis "answers like the model
+   of it". Get is translated under the option NilIsEmpty: see the remark there
+   and docs/audit/C15.md, section "GoLite". *)
 From Coq Require Import List Bool String Ascii NArith ZArith Lia.
-From NV Require Import Base GoLib C15_Model C15_Proofs C15_Gen.
+From NV Require Import Base GoLib C15_Model C15_Proofs C15_Audit C15_Gen.
 Import ListNotations.
 Local Open Scope string_scope.
 Local Open Scope list_scope.
@@ -24,21 +28,10 @@ Local Open Scope list_scope.
 (* time.Time -> the model's NextUpdate *)
 Definition nu_of (z : Z) : option Z := if time_is_zero z then None else Some z.
 
-(* errors.Is(e, corecrl.ErrCacheMiss): e is the sentinel or wraps it (%w), at any depth *)
-Definition is_sentinel (e : err) : bool :=
-  match crl_ErrCacheMiss with
-  | Some s => String.eqb (err_typ e) (err_typ s) && String.eqb (err_fmt e) (err_fmt s)
-              && match err_wrapped e with [] => true | _ => false end
-  | None => false
-  end.
-
-Fixpoint wraps_miss (e : err) : bool :=
-  match e with
-  | Err t f w =>
-      is_sentinel (Err t f w)
-      || (fix any (l : list err) : bool :=
-            match l with [] => false | x :: r => wraps_miss x || any r end) w
-  end.
+(* errors.Is(e, corecrl.ErrCacheMiss), exactly as the translator reads it in the
+   generated code (GoLib.err_is on the generated constant crl_ErrCacheMiss: the
+   sentinel itself or an error wrapping it with %w, at any depth) *)
+Definition wraps_miss (e : err) : bool := err_is (Some e) crl_ErrCacheMiss.
 
 (* what Get makes of the answer of checkExpiry: nil -> go on; the sentinel -> a
    cache miss (code kexp); any other error -> an error (code kzero) *)
@@ -49,18 +42,20 @@ Definition res_of_expiry (kzero kexp : N) (e : option err) : option res :=
   end.
 
 (* fmt.Errorf("..: %w", e) keeps the class (Get wraps what checkExpiry returned) *)
-Lemma wraps_miss_wrap f e : f <> "cache miss" -> wraps_miss (Err "fmt" f [e]) = wraps_miss e.
+Lemma wraps_miss_wrap f e : wraps_miss (Err "fmt" f [e]) = wraps_miss e.
 Proof.
-  intros Hf. cbn [wraps_miss]. unfold is_sentinel, crl_ErrCacheMiss.
-  cbn [err_typ err_fmt err_wrapped]. rewrite orb_false_r.
-  replace (String.eqb "fmt" "errors") with false by reflexivity. reflexivity.
+  unfold wraps_miss, crl_ErrCacheMiss. cbn [err_is err_has_typ].
+  rewrite orb_false_r. reflexivity.
 Qed.
 
 (* ---------- the sentinel ---------- *)
+(* it is not nil, errors.Is recognises it in itself, and it is not confused with
+   fs.ErrNotExist (the other sentinel Get looks for), in either direction *)
 Theorem C15_gen_ErrCacheMiss_pinned :
-  crl_ErrCacheMiss = Some (Err "errors" "cache miss" []) /\
-  (forall e, crl_ErrCacheMiss = Some e -> wraps_miss e = true).
-Proof. split; [reflexivity|]. intros e H. injection H as <-. reflexivity. Qed.
+  (exists s, crl_ErrCacheMiss = Some s /\ wraps_miss s = true) /\
+  err_is crl_ErrCacheMiss fs_ErrNotExist = false /\
+  err_is fs_ErrNotExist crl_ErrCacheMiss = false.
+Proof. split; [eexists; split; reflexivity|]. split; reflexivity. Qed.
 Print Assumptions C15_gen_ErrCacheMiss_pinned.
 
 (* ---------- checkExpiry = check_expiry ---------- *)
@@ -270,3 +265,397 @@ Theorem C15_gen_zero_is_error :
   forall now, exists e, gen_crl_checkExpiry now time_zero = Some e /\ wraps_miss e = false.
 Proof. intros now. apply (proj2 (proj2 (C15_gen_checkExpiry_spec now time_zero))). reflexivity. Qed.
 Print Assumptions C15_gen_zero_is_error.
+
+(* ================================================================== *)
+(* fileName, Set, Get                                                  *)
+(* ================================================================== *)
+
+(* a byte slice as the model's byte string; the Raw of a parsed list *)
+Definition rawstr (r : x509_RevocationList) : string := str_of_bytes (RevocationList_Raw r).
+
+(* content.DeltaCRL as the model's optional delta. Get is translated with the
+   option NilIsEmpty: `content.DeltaCRL != nil` (crl.go:104) is read as
+   `len(content.DeltaCRL) != 0`, because a slice is a list and nil = empty.
+   The real code tells the two apart: "deltaCRL":"" decodes to an empty non-nil
+   slice, which Get hands to the parser (-> "failed to parse delta CRL"), where
+   the translation sees no delta. That one decoder answer — model: dec c =
+   Some (b, Some "") — is outside what the generated Get can express; the
+   hypothesis [unmarshal_agrees] below cannot be met for such a content, so
+   the theorem is silent there (harness: family corrupt, case "delta:empty-string"). *)
+Definition dopt (D : list Z) : option string :=
+  match D with [] => None | _ => Some (str_of_bytes D) end.
+
+(* sha256.Sum256 seen by the model *)
+Definition sha_of (sum : list Z -> list Z) (u : string) : string := str_of_bytes (sum (bytes_of_str u)).
+
+(* encoding/hex is concrete in the model *)
+Definition hex_agrees (hexenc : list Z -> string) : Prop := forall l, hexenc l = hex (str_of_bytes l).
+
+(* ---------- fileName ---------- *)
+Theorem C15_gen_fileName_equiv :
+  forall sum hexenc, hex_agrees hexenc ->
+  forall c url, gen_crl_FileCache_fileName sum hexenc c url = file_name (sha_of sum) url.
+Proof. intros sum hexenc Hhex c url. unfold gen_crl_FileCache_fileName. cbv zeta. apply Hhex. Qed.
+Print Assumptions C15_gen_fileName_equiv.
+
+(* C15_in_root_name on the code: whatever the url, the name is made of hex
+   digits only, two per digest byte *)
+Theorem C15_gen_fileName_in_root :
+  forall sum hexenc, hex_agrees hexenc ->
+  forall c url,
+    all_chars is_hexdigit (gen_crl_FileCache_fileName sum hexenc c url) = true /\
+    String.length (gen_crl_FileCache_fileName sum hexenc c url) = 2 * String.length (sha_of sum url).
+Proof.
+  intros sum hexenc Hhex c url. rewrite (C15_gen_fileName_equiv sum hexenc Hhex).
+  apply file_name_shape.
+Qed.
+Print Assumptions C15_gen_fileName_in_root.
+
+(* ---------- Set ---------- *)
+
+(* the bundle handed to Set, as the model's argument *)
+Definition abs_bundle (p : ptr crl_Bundle) : option (option string * option string) :=
+  match ptr_val p with
+  | None => None
+  | Some bv => Some (option_map rawstr (ptr_val (Bundle_BaseCRL bv)),
+                     option_map rawstr (ptr_val (Bundle_DeltaCRL bv)))
+  end.
+
+(* the error of Set as the harness reads it (by message; here: format string) *)
+Definition set_class (e : option err) : res :=
+  match e with
+  | None => ROk
+  | Some (Err _ f _) =>
+      if String.eqb f "failed to store crl bundle in file cache: bundle cannot be nil" then RErr 7
+      else if String.eqb f "failed to store crl bundle in file cache: bundle BaseCRL cannot be nil" then RErr 8
+      else RErr 9
+  end.
+
+(* what Set does, on the generated types: the two refusals come first and
+   involve no dependency; then exactly one fileCacheContent {Raw of the base, Raw
+   of the delta or nothing} is marshalled, and the bytes are handed to
+   file.WriteFile with the root as directory and Join(root, fileName(url)) as
+   destination; both failures are wrapped in the same message *)
+Definition set_code (sum : list Z -> list Z) (hexenc : list Z -> string)
+           (joinf : list string -> string) (write : string -> string -> list Z -> option err)
+           (marshal : crl_fileCacheContent -> list Z * option err)
+           (c : crl_FileCache) (url : string) (bundle : ptr crl_Bundle) : option err :=
+  match ptr_val bundle with
+  | None => Some (Err "errors" "failed to store crl bundle in file cache: bundle cannot be nil" [])
+  | Some bv =>
+      match ptr_val (Bundle_BaseCRL bv) with
+      | None => Some (Err "errors" "failed to store crl bundle in file cache: bundle BaseCRL cannot be nil" [])
+      | Some b =>
+          let content := mk_fileCacheContent (RevocationList_Raw b)
+                           (match ptr_val (Bundle_DeltaCRL bv) with
+                            | Some d => RevocationList_Raw d
+                            | None => []
+                            end) in
+          match snd (marshal content) with
+          | Some e => Some (Err "fmt" "failed to store crl bundle in file cache: %w" [e])
+          | None =>
+              match write (FileCache_root c)
+                          (joinf [FileCache_root c; gen_crl_FileCache_fileName sum hexenc c url])
+                          (fst (marshal content)) with
+              | Some e => Some (Err "fmt" "failed to store crl bundle in file cache: %w" [e])
+              | None => None
+              end
+          end
+      end
+  end.
+
+(* for ALL oracle behaviours: Set never panics and is set_code *)
+Theorem C15_gen_Set_spec :
+  forall sum hexenc joinf write marshal c url bundle,
+    gen_crl_FileCache_Set sum hexenc joinf write marshal c url bundle
+    = Some (set_code sum hexenc joinf write marshal c url bundle).
+Proof.
+  intros sum hexenc joinf write marshal c url bundle.
+  unfold gen_crl_FileCache_Set, set_code. cbv zeta.
+  destruct (ptr_val bundle) as [bv|]; [|reflexivity].
+  rewrite ptr_is_nil_val.
+  destruct (ptr_val (Bundle_BaseCRL bv)) as [b|]; cbn [is_none]; [|reflexivity].
+  rewrite ptr_is_nil_val.
+  destruct (ptr_val (Bundle_DeltaCRL bv)) as [d|]; cbn [is_none negb];
+    unfold set_fileCacheContent_DeltaCRL; cbn [fileCacheContent_BaseCRL fileCacheContent_DeltaCRL].
+  - destruct (marshal (mk_fileCacheContent (RevocationList_Raw b) (RevocationList_Raw d))) as [bytes [e|]];
+      cbn [is_none negb olist fst snd]; [reflexivity|].
+    destruct (write _ _ bytes) as [e|]; reflexivity.
+  - destruct (marshal (mk_fileCacheContent (RevocationList_Raw b) [])) as [bytes [e|]];
+      cbn [is_none negb olist fst snd]; [reflexivity|].
+    destruct (write _ _ bytes) as [e|]; reflexivity.
+Qed.
+Print Assumptions C15_gen_Set_spec.
+
+(* C15_set_nil on the code: a nil bundle / a bundle without base is refused with
+   its own error whatever the dependencies would answer (they are not consulted) *)
+Theorem C15_gen_Set_refuses_nil :
+  forall sum hexenc joinf write marshal c url bundle,
+    (abs_bundle bundle = None ->
+       exists e, gen_crl_FileCache_Set sum hexenc joinf write marshal c url bundle = Some (Some e)
+                 /\ set_class (Some e) = RErr 7
+                 /\ forall sum' hexenc' joinf' write' marshal',
+                      gen_crl_FileCache_Set sum' hexenc' joinf' write' marshal' c url bundle = Some (Some e)) /\
+    (forall d, abs_bundle bundle = Some (None, d) ->
+       exists e, gen_crl_FileCache_Set sum hexenc joinf write marshal c url bundle = Some (Some e)
+                 /\ set_class (Some e) = RErr 8
+                 /\ forall sum' hexenc' joinf' write' marshal',
+                      gen_crl_FileCache_Set sum' hexenc' joinf' write' marshal' c url bundle = Some (Some e)).
+Proof.
+  intros sum hexenc joinf write marshal c url bundle. unfold abs_bundle. split.
+  - intros H. destruct (ptr_val bundle) as [bv|] eqn:Hb; [discriminate H|].
+    eexists. split; [|split].
+    + rewrite C15_gen_Set_spec. unfold set_code. rewrite Hb. reflexivity.
+    + reflexivity.
+    + intros. rewrite C15_gen_Set_spec. unfold set_code. rewrite Hb. reflexivity.
+  - intros d H. destruct (ptr_val bundle) as [bv|] eqn:Hb; [|discriminate H].
+    destruct (ptr_val (Bundle_BaseCRL bv)) as [b|] eqn:Hbase; [discriminate H|].
+    eexists. split; [|split].
+    + rewrite C15_gen_Set_spec. unfold set_code. rewrite Hb, Hbase. reflexivity.
+    + reflexivity.
+    + intros. rewrite C15_gen_Set_spec. unfold set_code. rewrite Hb, Hbase. reflexivity.
+Qed.
+Print Assumptions C15_gen_Set_refuses_nil.
+
+(* file.WriteFile on the destination of this url, against the model's directory:
+   it fails exactly when a directory sits at the name (rename(2) onto a directory) *)
+Definition write_agrees (write : string -> string -> list Z -> option err)
+           (rootc path : string) (f : fs) (n : string) : Prop :=
+  forall bytes,
+    match alookup n f with
+    | Some None => write rootc path bytes <> None
+    | _ => write rootc path bytes = None
+    end.
+
+(* the answer of Set = the answer of the model's set, for every directory f,
+   every encoder of the model and every flag e (the answer depends on neither) *)
+Theorem C15_gen_Set_equiv :
+  forall sum hexenc joinf write marshal c url bundle (f : fs) enc e,
+    hex_agrees hexenc ->
+    (forall ct, snd (marshal ct) = None) ->
+    write_agrees write (FileCache_root c)
+                 (joinf [FileCache_root c; file_name (sha_of sum) url]) f (file_name (sha_of sum) url) ->
+    exists r, gen_crl_FileCache_Set sum hexenc joinf write marshal c url bundle = Some r /\
+              set_class r = snd (fst (set (sha_of sum) enc f url e (abs_bundle bundle))).
+Proof.
+  intros sum hexenc joinf write marshal c url bundle f enc e Hhex Hmar Hw.
+  eexists. split; [apply C15_gen_Set_spec|].
+  unfold set_code, abs_bundle, set.
+  destruct (ptr_val bundle) as [bv|]; [|reflexivity].
+  destruct (ptr_val (Bundle_BaseCRL bv)) as [b|]; cbn [option_map]; [|reflexivity].
+  rewrite Hmar, (C15_gen_fileName_equiv sum hexenc Hhex).
+  match goal with |- context [write _ _ ?bs] => specialize (Hw bs) end.
+  destruct (alookup (file_name (sha_of sum) url) f) as [[ct|]|].
+  - rewrite Hw. reflexivity.
+  - destruct (write _ _ _) as [e'|]; [reflexivity|contradiction Hw; reflexivity].
+  - rewrite Hw. reflexivity.
+Qed.
+Print Assumptions C15_gen_Set_equiv.
+
+(* ---------- Get ---------- *)
+
+(* the error of Get as the harness reads it: errors.Is(err, ErrCacheMiss) first,
+   then the message (here: the format string) *)
+Definition get_class (e : err) : res :=
+  let f := err_fmt e in
+  if wraps_miss e then
+    RMiss (if String.eqb f "check BaseCRL expiry failed: %w" then 1
+           else if String.eqb f "check DeltaCRL expiry failed: %w" then 2 else 0)
+  else
+    RErr (if String.eqb f "failed to get crl bundle from file cache with key %q: %w" then 1
+          else if String.eqb f "failed to decode file retrieved from file cache: %w" then 2
+          else if String.eqb f "failed to parse base CRL of file retrieved from file cache: %w" then 3
+          else if String.eqb f "failed to parse delta CRL of file retrieved from file cache: %w" then 4
+          else if String.eqb f "check BaseCRL expiry failed: %w" then 5
+          else if String.eqb f "check DeltaCRL expiry failed: %w" then 6 else 99).
+
+(* what Get returned, as the model's result: a bundle is the Raw of its parts
+   (RNone: a run-time panic, or a nil error without a usable bundle) *)
+Definition get_res (r : option (ptr crl_Bundle * option err)) : res :=
+  match r with
+  | None => RNone
+  | Some (_, Some e) => get_class e
+  | Some (p, None) =>
+      match ptr_val p with
+      | Some bv =>
+          match ptr_val (Bundle_BaseCRL bv) with
+          | Some b => RHit (rawstr b) (option_map rawstr (ptr_val (Bundle_DeltaCRL bv)))
+          | None => RNone
+          end
+      | None => RNone
+      end
+  end.
+
+(* os.ReadFile of the entry path against the model's directory: no such name ->
+   an error that errors.Is fs.ErrNotExist; a directory -> another error; a
+   regular file -> its content. No dependency ever answers the cache's own
+   sentinel (last conjunct; same in the two hypotheses below). *)
+Definition read_agrees (readfile : string -> list Z * option err) (path : string)
+           (f : fs) (n : string) : Prop :=
+  match alookup n f with
+  | None => exists e, snd (readfile path) = Some e /\ err_is (Some e) fs_ErrNotExist = true
+  | Some None => exists e, snd (readfile path) = Some e /\ err_is (Some e) fs_ErrNotExist = false
+                           /\ wraps_miss e = false
+  | Some (Some ct) => snd (readfile path) = None /\ str_of_bytes (fst (readfile path)) = ct
+  end.
+
+(* json.Unmarshal into a zero fileCacheContent against the model's decoder *)
+Definition unmarshal_agrees
+           (unmarshal : list Z -> crl_fileCacheContent -> crl_fileCacheContent * option err)
+           (dec : string -> option (string * option string)) : Prop :=
+  forall bs,
+    let r := unmarshal bs (mk_fileCacheContent [] []) in
+    match dec (str_of_bytes bs) with
+    | None => exists e, snd r = Some e /\ wraps_miss e = false
+    | Some (b, d) => snd r = None /\ str_of_bytes (fileCacheContent_BaseCRL (fst r)) = b
+                     /\ dopt (fileCacheContent_DeltaCRL (fst r)) = d
+    end.
+
+(* x509.ParseRevocationList against the model's parser: an error, or a non-nil
+   list with that Raw and that NextUpdate *)
+Definition parse_agrees (parseRL : list Z -> ptr x509_RevocationList * option err)
+           (parse : string -> crlfact) : Prop :=
+  forall L,
+    match parse (str_of_bytes L) with
+    | PErr => exists e, snd (parseRL L) = Some e /\ wraps_miss e = false
+    | POk raw nu => snd (parseRL L) = None /\
+                    exists r, ptr_val (fst (parseRL L)) = Some r /\ rawstr r = raw
+                              /\ nu_of (RevocationList_NextUpdate r) = nu
+    end.
+
+(* the class of a wrapped dependency error that does not carry the sentinel *)
+Lemma class_wrap_err f e : wraps_miss e = false ->
+  get_class (Err "fmt" f [e]) = get_class (Err "fmt" f []).
+Proof.
+  intros H. unfold get_class. rewrite wraps_miss_wrap, H. reflexivity.
+Qed.
+
+(* checkExpiry's answer wrapped by Get, read by get_class = the model's reading *)
+Ltac expiry_class x :=
+  cbn [get_res res_of_expiry]; unfold get_class; rewrite wraps_miss_wrap; cbn [err_fmt];
+  destruct (wraps_miss x); reflexivity.
+
+Theorem C15_gen_Get_equiv :
+  forall now parseRL sum hexenc readfile joinf unmarshal c url (f : fs) dec parse,
+    hex_agrees hexenc ->
+    read_agrees readfile (joinf [FileCache_root c; file_name (sha_of sum) url]) f
+                (file_name (sha_of sum) url) ->
+    unmarshal_agrees unmarshal dec ->
+    parse_agrees parseRL parse ->
+    get_res (gen_crl_FileCache_Get now parseRL sum hexenc readfile joinf unmarshal c url)
+    = get (sha_of sum) dec parse f url now.
+Proof.
+  intros now parseRL sum hexenc readfile joinf unmarshal c url f dec parse Hhex Hread Hdec Hparse.
+  unfold gen_crl_FileCache_Get, get. rewrite (C15_gen_fileName_equiv sum hexenc Hhex).
+  unfold read_agrees in Hread.
+  destruct (readfile _) as [bs re].
+  cbn [fst snd] in Hread.
+  destruct (alookup (file_name (sha_of sum) url) f) as [[ct|]|].
+  2: { (* a directory *)
+    destruct Hread as (e & -> & Hne & Hnm). cbn [is_none negb olist]. rewrite Hne.
+    cbn [get_res]. rewrite (class_wrap_err _ e Hnm). reflexivity. }
+  2: { (* no file *)
+    destruct Hread as (e & -> & His). cbn [is_none negb]. rewrite His. reflexivity. }
+  destruct Hread as [-> Hct]. cbn [is_none negb]. cbv beta zeta.
+  specialize (Hdec bs). cbv zeta in Hdec. rewrite Hct in Hdec.
+  destruct (unmarshal bs _) as [content ue]. cbn [fst snd] in Hdec.
+  destruct (dec ct) as [[b d]|].
+  2: { destruct Hdec as (e & -> & Hnm). cbn [is_none negb olist get_res].
+       rewrite (class_wrap_err _ e Hnm). reflexivity. }
+  destruct Hdec as (-> & Hb & Hd). cbn [is_none negb].
+  unfold get_entry.
+  pose proof (Hparse (fileCacheContent_BaseCRL content)) as Hpb. rewrite Hb in Hpb.
+  destruct (parseRL (fileCacheContent_BaseCRL content)) as [pb eb]. cbn [fst snd] in Hpb.
+  destruct (parse b) as [|rawb nub].
+  { destruct Hpb as (e & -> & Hnm). cbn [is_none negb olist get_res].
+    rewrite (class_wrap_err _ e Hnm). reflexivity. }
+  destruct Hpb as (-> & rb & Hrb & Hrawb & Hnub). cbn [is_none negb].
+  unfold set_Bundle_BaseCRL, set_Bundle_DeltaCRL. cbn [Bundle_BaseCRL Bundle_DeltaCRL].
+  rewrite list_len_zero. unfold dopt in Hd.
+  destruct (fileCacheContent_DeltaCRL content) as [|z D] eqn:HD.
+  - (* no delta *)
+    subst d. cbn [negb ptr_is_nil]. rewrite Hrb.
+    rewrite <- Hnub, <- (C15_gen_checkExpiry_equiv now _ 5 1).
+    destruct (gen_crl_checkExpiry now (RevocationList_NextUpdate rb)) as [x|]; cbn [is_none negb olist].
+    + expiry_class x.
+    + cbn [get_res res_of_expiry ptr_val Bundle_BaseCRL Bundle_DeltaCRL option_map]. rewrite Hrb, Hrawb. reflexivity.
+  - (* a delta *)
+    subst d. cbn [negb].
+    pose proof (Hparse (z :: D)) as Hpd.
+    destruct (parseRL (z :: D)) as [pd ed]. cbn [fst snd] in Hpd.
+    destruct (parse (str_of_bytes (z :: D))) as [|rawd nud].
+    { destruct Hpd as (e & -> & Hnm). cbn [is_none negb olist get_res].
+      rewrite (class_wrap_err _ e Hnm). reflexivity. }
+    destruct Hpd as (-> & rd & Hrd & Hrawd & Hnud). cbn [is_none negb]. rewrite Hrb.
+    rewrite <- Hnub, <- (C15_gen_checkExpiry_equiv now _ 5 1).
+    destruct (gen_crl_checkExpiry now (RevocationList_NextUpdate rb)) as [x|]; cbn [is_none negb olist].
+    + expiry_class x.
+    + cbn [res_of_expiry]. rewrite ptr_is_nil_val, Hrd. cbn [is_none negb].
+      rewrite <- Hnud, <- (C15_gen_checkExpiry_equiv now _ 6 2).
+      destruct (gen_crl_checkExpiry now (RevocationList_NextUpdate rd)) as [y|]; cbn [is_none negb olist].
+      * expiry_class y.
+      * cbn [get_res res_of_expiry ptr_val Bundle_BaseCRL Bundle_DeltaCRL option_map].
+        rewrite Hrb, Hrd. cbn [option_map]. rewrite Hrawb, Hrawd. reflexivity.
+Qed.
+Print Assumptions C15_gen_Get_equiv.
+
+(* ---------- the property theorems on the code's Get ---------- *)
+Section GetTransport.
+  Variables (now : Z) (parseRL : list Z -> ptr x509_RevocationList * option err)
+            (sum : list Z -> list Z) (hexenc : list Z -> string)
+            (readfile : string -> list Z * option err) (joinf : list string -> string)
+            (unmarshal : list Z -> crl_fileCacheContent -> crl_fileCacheContent * option err)
+            (c : crl_FileCache) (url : string)
+            (f : fs) (dec : string -> option (string * option string)) (parse : string -> crlfact).
+  Hypothesis Hhex : hex_agrees hexenc.
+  Hypothesis Hread : read_agrees readfile (joinf [FileCache_root c; file_name (sha_of sum) url]) f
+                                 (file_name (sha_of sum) url).
+  Hypothesis Hdec : unmarshal_agrees unmarshal dec.
+  Hypothesis Hparse : parse_agrees parseRL parse.
+
+  Notation answer := (get_res (gen_crl_FileCache_Get now parseRL sum hexenc readfile joinf unmarshal c url)).
+
+  (* C15_get_hit_iff: a bundle, with exactly the Raw of the parsed parts, iff the
+     file at the hashed name decodes, both parts parse and neither has expired *)
+  Theorem C15_gen_Get_hit_iff : forall b' d',
+    answer = RHit b' d' <->
+    exists ct b d, alookup (file_name (sha_of sum) url) f = Some (Some ct) /\ dec ct = Some (b, d) /\
+      (exists nb, parse b = POk b' (Some nb) /\ (now <= nb)%Z) /\
+      match d with
+      | None => d' = None
+      | Some dd => exists rd nd, d' = Some rd /\ parse dd = POk rd (Some nd) /\ (now <= nd)%Z
+      end.
+  Proof.
+    intros b' d'. rewrite (C15_gen_Get_equiv _ _ _ _ _ _ _ _ _ _ _ _ Hhex Hread Hdec Hparse).
+    apply get_hit_iff.
+  Qed.
+
+  (* C15_get_miss_iff: ErrCacheMiss iff no file (0), base expired (1), base fresh and delta expired (2) *)
+  Theorem C15_gen_Get_miss_iff : forall k,
+    answer = RMiss k <->
+    (alookup (file_name (sha_of sum) url) f = None /\ k = 0%N) \/
+    exists ct b d, alookup (file_name (sha_of sum) url) f = Some (Some ct) /\ dec ct = Some (b, d) /\
+      exists rb nb, parse b = POk rb (Some nb) /\
+        match d with
+        | None => (now > nb)%Z /\ k = 1%N
+        | Some dd => exists rd ond, parse dd = POk rd ond /\
+            (((now > nb)%Z /\ k = 1%N) \/
+             ((now <= nb)%Z /\ exists nd, ond = Some nd /\ (now > nd)%Z /\ k = 2%N))
+        end.
+  Proof.
+    intros k. rewrite (C15_gen_Get_equiv _ _ _ _ _ _ _ _ _ _ _ _ Hhex Hread Hdec Hparse).
+    apply get_miss_iff.
+  Qed.
+
+  (* C15_corrupt: a stored file that is not a well-formed entry -> an error, never a bundle or a miss *)
+  Theorem C15_gen_Get_corrupt : forall ct,
+    alookup (file_name (sha_of sum) url) f = Some (Some ct) -> not_an_entry dec parse ct ->
+    exists k, answer = RErr k.
+  Proof.
+    intros ct Hf Hn. rewrite (C15_gen_Get_equiv _ _ _ _ _ _ _ _ _ _ _ _ Hhex Hread Hdec Hparse).
+    exact (corrupt_error (sha_of sum) dec parse f url now ct Hf Hn).
+  Qed.
+End GetTransport.
+Print Assumptions C15_gen_Get_hit_iff.
+Print Assumptions C15_gen_Get_miss_iff.
+Print Assumptions C15_gen_Get_corrupt.
